@@ -24,6 +24,7 @@ import (
 	"time"
 
 	"github.com/antlr4-go/antlr/v4"
+	"github.com/expr-lang/expr"
 	parser "github.com/shivasurya/code-pathfinder/sourcecode-parser/antlr"
 	"github.com/shivasurya/code-pathfinder/sourcecode-parser/cmd"
 	"github.com/shivasurya/code-pathfinder/sourcecode-parser/graph"
@@ -318,6 +319,61 @@ func handle(r *Req) (resp Resp) {
 		resp["tuples"] = rows
 		resp["output"] = outp
 		resp["outcome"] = "ok"
+	case "eval-atoms":
+		// evaluate each atom text on each tuple with expr-lang against the real per-tuple environment:
+		// 't' true, 'f' false, 'n' non-boolean value, 'e' run-time error, 'c' compile error, 'p' panic
+		g := graphs[r.Graph]
+		pq, err := parser.ParseQuery(r.Q)
+		if err != nil {
+			resp["outcome"] = "diag"
+			resp["err"] = err.Error()
+			return
+		}
+		var tuples [][]string
+		if e := json.Unmarshal(r.Results, &tuples); e != nil {
+			resp["outcome"] = "bad-request"
+			return
+		}
+		tables := []string{}
+		for _, atom := range r.Strs {
+			row := make([]byte, len(tuples))
+			for i, tp := range tuples {
+				func() {
+					defer func() {
+						if p := recover(); p != nil {
+							row[i] = 'p'
+						}
+					}()
+					ns := make([]*graph.Node, len(tp))
+					for j, id := range tp {
+						ns[j] = g.Nodes[id]
+					}
+					env := graph.VerifGenerateProxyEnvForSet(ns, pq)
+					prog, err := expr.Compile(atom, expr.Env(env))
+					if err != nil {
+						row[i] = 'c'
+						return
+					}
+					v, err := expr.Run(prog, env)
+					if err != nil {
+						row[i] = 'e'
+						return
+					}
+					if b, ok := v.(bool); ok {
+						if b {
+							row[i] = 't'
+						} else {
+							row[i] = 'f'
+						}
+					} else {
+						row[i] = 'n'
+					}
+				}()
+			}
+			tables = append(tables, string(row))
+		}
+		resp["tables"] = tables
+		resp["outcome"] = "ok"
 	case "parse":
 		pq, err := parser.ParseQuery(r.Q)
 		if err != nil {
@@ -361,6 +417,25 @@ func handle(r *Req) (resp Resp) {
 		resp["invocations"] = invs
 		resp["conditions"] = pq.Condition
 		resp["expression"] = pq.Expression
+	case "accept-batch":
+		// one character per query: 'a' accepted, 'r' rejected with a diagnostic, 'p' panicked
+		res := make([]byte, len(r.Qs))
+		for i, q := range r.Qs {
+			func() {
+				defer func() {
+					if p := recover(); p != nil {
+						res[i] = 'p'
+					}
+				}()
+				if _, err := parser.ParseQuery(q); err != nil {
+					res[i] = 'r'
+				} else {
+					res[i] = 'a'
+				}
+			}()
+		}
+		resp["res"] = string(res)
+		resp["outcome"] = "ok"
 	case "lex":
 		is := antlr.NewInputStream(r.Q)
 		lx := parser.NewQueryLexer(is)
